@@ -131,3 +131,57 @@ Proof. intros. unfold tcount. eapply count_such_pos; eauto. Qed.
 
 Lemma tcount_pos_inv {A} (p : A -> bool) thr n : (0 < tcount p thr n)%nat -> exists t, (t < n)%nat /\ p (thr t) = true.
 Proof. unfold tcount. apply count_such_pos_inv. Qed.
+
+(* ---- summing a per-thread quantity ---- *)
+Fixpoint sum_such (f : nat -> nat) (n : nat) : nat :=
+  match n with O => 0%nat | S m => (f m + sum_such f m)%nat end.
+Definition tsum {A} (f : A -> nat) (thr : nat -> A) (n : nat) : nat := sum_such (fun u => f (thr u)) n.
+
+Lemma sum_such_ext f g n : (forall u, (u < n)%nat -> f u = g u) -> sum_such f n = sum_such g n.
+Proof.
+  induction n as [|m IH]; simpl; intros H; [reflexivity|].
+  rewrite (H m) by lia. rewrite IH; [reflexivity|]. intros; apply H; lia.
+Qed.
+
+Lemma tsum_upd {A} (f : A -> nat) thr t x n : (t < n)%nat ->
+  (tsum f (upd thr t x) n + f (thr t) = tsum f thr n + f x)%nat.
+Proof.
+  unfold tsum. induction n as [|m IH]; intros Ht; [lia|]. simpl.
+  destruct (Nat.eq_dec t m) as [->|Hne].
+  - rewrite upd_same.
+    rewrite (sum_such_ext (fun u => f (upd thr m x u)) (fun u => f (thr u)) m); [lia|].
+    intros u Hu. rewrite upd_other by lia. reflexivity.
+  - rewrite upd_other by congruence. assert (t < m)%nat by lia. specialize (IH H). lia.
+Qed.
+
+Lemma tsum_upd2 {A} (f : A -> nat) thr u xu t xt n : (u < n)%nat -> (t < n)%nat -> u <> t ->
+  (tsum f (upd (upd thr u xu) t xt) n + f (thr u) + f (thr t) = tsum f thr n + f xu + f xt)%nat.
+Proof.
+  intros Hu Ht Hne.
+  pose proof (tsum_upd f (upd thr u xu) t xt n Ht) as H1.
+  pose proof (tsum_upd f thr u xu n Hu) as H2.
+  rewrite upd_other in H1 by congruence. lia.
+Qed.
+
+Lemma tsum_zero {A} (f : A -> nat) thr n : (forall u, (u < n)%nat -> f (thr u) = 0%nat) -> tsum f thr n = 0%nat.
+Proof.
+  unfold tsum. induction n as [|m IH]; simpl; intros H; [reflexivity|].
+  rewrite (H m) by lia. rewrite IH; [reflexivity|]. intros; apply H; lia.
+Qed.
+
+Lemma tsum_ge {A} (f : A -> nat) thr n t : (t < n)%nat -> (f (thr t) <= tsum f thr n)%nat.
+Proof.
+  unfold tsum. induction n as [|m IH]; simpl; intros Ht; [lia|].
+  destruct (Nat.eq_dec t m) as [->|Hne]; [lia|]. assert (t < m)%nat by lia. specialize (IH H). lia.
+Qed.
+
+Lemma tsum_single {A} (f : A -> nat) thr n t : (t < n)%nat ->
+  (forall u, (u < n)%nat -> u <> t -> f (thr u) = 0%nat) -> tsum f thr n = f (thr t).
+Proof.
+  unfold tsum. induction n as [|m IH]; simpl; intros Ht H; [lia|].
+  destruct (Nat.eq_dec t m) as [->|Hne].
+  - rewrite (sum_such_ext (fun u => f (thr u)) (fun _ => 0%nat) m).
+    + assert (Z0 : forall k, sum_such (fun _ => 0%nat) k = 0%nat) by (induction k; simpl; auto). rewrite Z0. lia.
+    + intros u Hu. apply H; lia.
+  - rewrite (H m) by lia. rewrite IH; [lia|lia|]. intros u Hu Hn. apply H; lia.
+Qed.
